@@ -139,7 +139,7 @@ def check(case, rec):
         tf_l.close()
 
 
-def check_channel(rec, mode, ch, t, vals, n, p, windows, slices, idxs, raw_ts):
+def check_channel(rec, mode, ch, t, vals, n, p, windows, slices, idxs, raw_ts, scaled_only=False):
     if t is None:
         return
     if len(ch) != n:
@@ -147,7 +147,7 @@ def check_channel(rec, mode, ch, t, vals, n, p, windows, slices, idxs, raw_ts):
         return
     for (o, l) in windows:
         want = slice_vals(t, vals, slice(o, None if l is None else o + l))
-        for scaled in (True, False):
+        for scaled in ((True,) if scaled_only else (True, False)):
             ok, got = rec.guard('window:' + mode, lambda: ch.read_data(o, l, scaled=scaled))
             if not ok:
                 return
@@ -207,8 +207,61 @@ def cases(draw, **kw):
     return {'fs': fs, 'picks': [list(x) for x in picks], 'cut': cut, 'raw_ts': draw(st.booleans())}
 
 
+def check_daqmx(case, rec):
+    """DAQmx channels: scaled reads give the highest-numbered scaler (NI_Number_Of_Scales) / the typed scaler"""
+    from nptdms import TdmsFile
+    from vf.daqmx import expected_daqmx
+    fs = case['fs']
+    data, _i, _l = encode_file(fs)
+    exd = expected_daqmx(fs)
+    rec.label('daqmx')
+    ok, tf_e = rec.guard('read', lambda: TdmsFile.read(io.BytesIO(data)))
+    if not ok:
+        return
+    ok, tf_l = rec.guard('open', lambda: TdmsFile.open(io.BytesIO(data)))
+    if not ok:
+        return
+    nt = False
+    try:
+        for p, eo in exd.items():
+            g, c = split_path(p)
+            last = sorted(eo['scalers'])[-1]
+            t, vals = eo['scalers'][last]
+            n = eo['len']
+            if len(eo['chunks']) >= 2:
+                nt = True
+            windows, slices, idxs, exhaustive = requests_for(n, case['picks'])
+            rec.stat('requests', len(windows) + len(slices) + len(idxs))
+            for mode, tf in (('lazy', tf_l), ('eager', tf_e)):
+                check_channel(rec, mode, tf[g][c], t, vals, n, p, windows, slices, idxs, True, scaled_only=True)
+        rec.nontrivial(nt)
+    finally:
+        tf_l.close()
+
+
+@st.composite
+def daqmx_cases(draw):
+    from vf.daqmx import daqmx_file
+    fs = draw(daqmx_file(max_len=4, max_chunks=3))
+    picks = draw(st.lists(st.tuples(st.integers(0, 10 ** 6), st.integers(0, 10 ** 6), st.integers(0, 10 ** 6)),
+                          min_size=60, max_size=60))
+    return {'fs': fs, 'picks': [list(x) for x in picks]}
+
+
+@st.composite
+def twin_cases(draw):
+    fs = draw(S.twin_long_file())
+    picks = draw(st.lists(st.tuples(st.integers(0, 10 ** 6), st.integers(0, 10 ** 6), st.integers(0, 10 ** 6)),
+                          min_size=60, max_size=60))
+    return {'fs': fs, 'picks': [list(x) for x in picks], 'cut': None, 'raw_ts': True}
+
+
 def jobs(tier):
     if tier == 'quick':
-        return [Job('files', 'hyp', lambda: cases(), n=4000)]
+        return [Job('files', 'hyp', lambda: cases(), n=4000),
+                Job('long_files_shared_offset_prefix', 'hyp', twin_cases, n=64),
+                Job('daqmx_files', 'hyp', daqmx_cases, n=700, check=check_daqmx)]
     return [Job('files', 'hyp', lambda: cases(), n=40000),
+            Job('long_files_shared_offset_prefix', 'hyp', twin_cases, n=2000),
+            Job('daqmx_files', 'hyp', daqmx_cases, n=20000, check=check_daqmx),
             Job('wider', 'hyp', lambda: cases(max_segments=8, max_n=9, max_chunks=5, max_channels=4), n=10000)]
